@@ -35,7 +35,8 @@ RULE = (
     "first time). Discriminated unions (11 unions of C13's world) x 27 field-state bodies x 0..2 unexpected properties x "
     "every mapped key: the error list equals, in order, the one of the named alternative alone. Unions of alternatives "
     "of the same JSON class (two objects sharing their keys, two lists, two mappings; both orders). A class with two "
-    "validators: every ordered pair of 48 data on one compiled method (validator messages next to structural errors). distinct_nontrivial counts distinct "
+    "validators: every ordered pair of 48 data on one compiled method (validator messages next to structural errors). Arrays of 12 elements with every pair of ill-typed positions "
+    "(children in numeric key order). distinct_nontrivial counts distinct "
     "(ctor-pair shape, options, deviations, number of error entries, set of message kinds) tuples."
 )
 
@@ -495,8 +496,39 @@ def run_validator_world(st):
     sys.modules.pop(mod.__name__, None)
 
 
+def run_long_arrays(st):
+    """children in key order: indices are numbers (10 comes after 9), whatever the number of elements; arrays of 12 elements
+    with every pair of ill-typed positions, under list / set / variadic tuple / fixed tuple / list of objects"""
+    import itertools
+    from typing import Dict, List, Set, Tuple
+
+    n = 12
+    types = {
+        "List[int]": (List[int], lambda bad: [("x" if i in bad else i) for i in range(n)], lambda i: (i,)),
+        "Tuple[int, ...]": (Tuple[int, ...], lambda bad: [("x" if i in bad else i) for i in range(n)], lambda i: (i,)),
+        "Tuple[int x12]": (Tuple[tuple([int] * n)], lambda bad: [("x" if i in bad else i) for i in range(n)], lambda i: (i,)),
+        "Dict[str, List[int]]": (Dict[str, List[int]], lambda bad: {"k": [("x" if i in bad else i) for i in range(n)]}, lambda i: ("k", i)),
+    }
+    for name, (tp, mk, loc) in types.items():
+        method = apischema.deserialization_method(tp)
+        for i, j in itertools.combinations(range(n), 2):
+            kind, out = dc.run_impl(method, mk({i, j}))
+            st.case("long_arrays", name, i, j)
+            got = [l for l, _ in dc.impl_errors(out)] if kind == "err" else kind
+            if got != [loc(i), loc(j)]:
+                st.violation({"label": "long_arrays:" + name, "datum": repr(mk({i, j})), "signature": {"kind": "order", "shape": "long_arrays", "type": name}, "what": f"{name}: ill-typed elements at {i} and {j} reported as {got}, expected {[loc(i), loc(j)]} (children in key order)"[:400]})
+                break
+
+
 def work(tier, widx, nworkers, st, extra):
     mode = (extra or {}).get("mode", "main")
+    if mode == "main" and widx == (3 % nworkers) and os.environ.get("VERIF_ONLY") in (None, "", "long_arrays"):
+        try:
+            run_long_arrays(st)
+        except Exception:
+            import traceback
+
+            st.violation({"signature": {"kind": "harness_error"}, "harness_error": True, "what": "long arrays", "traceback": traceback.format_exc()[-2000:]})
     if mode == "main" and widx == (2 % nworkers) and os.environ.get("VERIF_ONLY") in (None, "", "validators"):
         try:
             run_validator_world(st)
